@@ -146,6 +146,14 @@ CHECKS = {
                      "rank one place above the top-1/rf cut may go either way (documents leave it open); any order within a Pareto layer is "
                      "accepted; np.random.choice owned by the harness.",
                 technique="explicit-state model checking of the implementation (history-replay BFS, lock-step reference) combined with bounded-exhaustive input enumeration"),
+    "C08": dict(engine="enumx", category="exploration", design_ref="§2 C08",
+                text="Bounded-exhaustive enumeration of a finite lattice of (kernel configuration, noise, mean, training multiset, target / "
+                     "fantasy matrix) cases and of all operation sequences of length <=3 over IncrementalUpdateGPPosteriorState, each "
+                     "compared with an independent dense numpy/mpmath (50-digit) GP reference under a-priori conditioning-scaled rounding bounds.",
+                note="Decides the identities on the lattice only (n in {1,2,3,5}, d in {1,2,3}, grid {0,.25,1}^d with 1e-7 near-duplicates, "
+                     "parameters at lower/init/upper-ish levels plus true box corners); numerically singular cases are counted and excluded; "
+                     "documented safeguards (distance jitter, warp rescale, 1e-5 joint-sample jitter, AddJitterOp ladder) are part of the reference.",
+                technique="bounded-exhaustive enumeration of a finite lattice and of operation sequences against an independent dense reference (no sampling)"),
 }
 
 NOT_YET = {}
